@@ -49,6 +49,7 @@ BASE = dict(
     tm=False, elitism=True, mutate_elite=True, tsize=2, mut="mixed", ckpt=None, overwrite=False,
     episode_steps=10, eval_steps=3, eval_loop=1, target=None, seed=0, strict=True, fault=None,
     ep_len=7, via="build", timeout=120, ls_spread=0,
+    budgets=None, start_steps=0, start_spread=0, start_hist=False,
 )
 
 LOOP_ALGOS = {
@@ -430,41 +431,72 @@ def execute(cfg: dict) -> dict:
         if cfg["fault"] == "steps+1":
             fn, ns = _faulty_train_fn(fn, "steps += num_envs", "steps += 1")
             target_mod = _NS(ns)
-        rec = _Rec(loop, memory)
-        E.REC = rec
-        res["initial"] = [{"index": int(a.index), "steps": int(a.steps[-1]), "fit": len(a.fitness),
-                           "hist": len(a.steps)} for a in pop]
         cls = type(pop[0])
-        sink = io.StringIO()
-        t0 = time.time()
-        try:
-            with _hooks(rec, cls, target_mod, cfg), contextlib.redirect_stdout(sink), contextlib.redirect_stderr(sink):
-                import warnings
-                with warnings.catch_warnings():
-                    warnings.simplefilter("ignore")
-                    out_pop, fits = fn(*args, **kw)
-        except BaseException as e:   # noqa: BLE001 — any exception of the training function is an observation
-            tb = traceback.extract_tb(e.__traceback__)
-            loc = [f"{os.path.basename(fr.filename)}:{fr.lineno}" for fr in tb if "agilerl" in fr.filename][-3:]
-            res.update(status="exception", exc=f"{type(e).__name__}: {str(e)[:300]}", where=loc)
-            out_pop, fits = None, None
-        res["wall"] = round(time.time() - t0, 2)
-        res["form"] = rec.form
-        res["learn_raised"] = rec.learn_raised
-        res["gens"] = [{k: v for k, v in g.items()} for g in rec.gens]
-        for g in res["gens"]:
-            for s in g["slots"]:
-                s.pop("id", None)
-        res["eval_env_steps"] = rec.eval_steps
-        if out_pop is not None:
-            res["final"] = [{"index": int(a.index), "steps": [int(x) for x in a.steps], "fit": len(a.fitness),
-                             "env": int(getattr(a, "verif_env", -1)), "ls": int(a.learn_step),
-                             "bs": int(a.batch_size)} for a in out_pop]
-            res["fits_len"] = len(fits)
-            res["fits_rows"] = [len(f) if hasattr(f, "__len__") else -1 for f in fits]
-            res["mem_len"] = int(len(memory)) if memory is not None else None
-        if cfg["ckpt"]:
-            res["ckpt_files"] = sorted(os.listdir(tmp))
+        pop_pos = 4 if loop == "offline" else 3
+        nsm_ = kw.get("n_step_memory")
+        # agents that were trained before / restored from a checkpoint: non-zero step counters on entry
+        if cfg["start_steps"]:
+            for i, a in enumerate(pop):
+                s0 = int(cfg["start_steps"]) + i * int(cfg["start_spread"])
+                a.steps = [0, s0] if cfg["start_hist"] else [s0]
+                a.verif_env = s0
+        budgets = list(cfg["budgets"]) if cfg["budgets"] else [cfg["max_steps"]]
+        segs = []
+        for ci, budget in enumerate(budgets):
+            seg: dict = {"status": "ok", "cfg": dict(cfg, max_steps=int(budget)), "call": ci}
+            kw["max_steps"] = int(budget)
+            rec = _Rec(loop, memory)
+            E.REC = rec
+            seg["initial"] = [{"index": int(a.index), "steps": [int(x) for x in a.steps], "fit": len(a.fitness),
+                               "env": int(getattr(a, "verif_env", 0))} for a in pop]
+            seg["mem0"] = [int(len(memory)) if memory is not None else 0,
+                           int(getattr(memory, "counter", 0)) if memory is not None else 0,
+                           len(nsm_.n_step_buffer) if nsm_ is not None else 0]
+            sink = io.StringIO()
+            t0 = time.time()
+            out_pop = fits = None
+            try:
+                with _hooks(rec, cls, target_mod, cfg), contextlib.redirect_stdout(sink), contextlib.redirect_stderr(sink):
+                    import warnings
+                    with warnings.catch_warnings():
+                        warnings.simplefilter("ignore")
+                        a_ = list(args)
+                        a_[pop_pos] = pop
+                        out_pop, fits = fn(*a_, **kw)
+            except BaseException as e:   # noqa: BLE001 — any exception of the training function is an observation
+                tb = traceback.extract_tb(e.__traceback__)
+                loc = [f"{os.path.basename(fr.filename)}:{fr.lineno}" for fr in tb if "agilerl" in fr.filename][-3:]
+                seg.update(status="exception", exc=f"{type(e).__name__}: {str(e)[:300]}", where=loc)
+            seg["wall"] = round(time.time() - t0, 2)
+            seg["form"] = rec.form
+            seg["learn_raised"] = rec.learn_raised
+            seg["gens"] = [{k: v for k, v in g.items()} for g in rec.gens]
+            for g in seg["gens"]:
+                for s in g["slots"]:
+                    s.pop("id", None)
+            seg["eval_env_steps"] = rec.eval_steps
+            if out_pop is not None:
+                seg["final"] = [{"index": int(a.index), "steps": [int(x) for x in a.steps], "fit": len(a.fitness),
+                                 "env": int(getattr(a, "verif_env", -1)), "ls": int(a.learn_step),
+                                 "bs": int(a.batch_size)} for a in out_pop]
+                seg["fits_len"] = len(fits)
+                seg["fits_rows"] = [len(f) if hasattr(f, "__len__") else -1 for f in fits]
+                seg["mem_len"] = int(len(memory)) if memory is not None else None
+            if cfg["ckpt"]:
+                seg["ckpt_files"] = sorted(os.listdir(tmp))
+            segs.append(seg)
+            if out_pop is None:
+                break
+            pop = out_pop
+        res["segs"] = segs
+        bad = next((g for g in segs if g["status"] != "ok"), None)
+        if bad is not None:
+            res.update(status=bad["status"], exc=bad.get("exc"), where=bad.get("where"))
+        res["wall"] = round(sum(g["wall"] for g in segs), 2)
+        res["form"], res["learn_raised"] = segs[0]["form"], segs[0]["learn_raised"]
+        res["gens"] = [g for sg in segs for g in sg["gens"]]
+        if "final" in segs[-1]:
+            res["final"] = segs[-1]["final"]
     except InfraError:
         raise
     except BaseException as e:   # noqa: BLE001 — construction problems are reported, not raised
@@ -621,16 +653,29 @@ class Pool:
 
 # ============================================================================================ model
 def model_lines(res: dict) -> tuple[list[str], list[str]]:
-    """(driver ops, what the implementation showed for each op)"""
+    """(driver ops, what the implementation showed for each op), all calls one after the other"""
+    if "segs" not in res:
+        return model_lines_seg(res) if "initial" in res else ([], [])
+    ops, impl = [], []
+    for sg in res["segs"]:
+        o, i = model_lines_seg(sg)
+        ops += o
+        impl += i
+    return ops, impl
+
+
+def model_lines_seg(res: dict) -> tuple[list[str], list[str]]:
     c = res["cfg"]
-    if "initial" not in res:        # killed or failed before the training function was entered
-        return [], []
     ne = c["num_envs"] or 1
     nstep = c["nstep"] if c["mem"] in ("nstep", "per_nstep") else 0
     ops = [f"loop cfg {c['loop']} {c['max_steps']} {c['evo_steps']} {ne} {c['delay']} {c['cap']} {nstep} "
            f"{c['episode_steps']} {c['ckpt'] or 0} {int(bool(c['elitism']))} {int(bool(c['mutate_elite']))}"]
     impl = ["ok"]
-    ops.append("loop pop " + " ".join(f"{a['index']} {a['steps']}" for a in res["initial"]))
+    for a in res["initial"]:      # every agent with the history it brings along
+        ops.append(f"loop agent {a['index']} {a['fit']} " + " ".join(map(str, a["steps"])))
+        impl.append("ok")
+    mem0 = res["mem0"] if c["loop"] in ("off", "bandit", "maoff") else [0, 0, 0]   # other loops never add to a memory
+    ops.append("loop mem " + " ".join(map(str, mem0)))
     impl.append("ok")
     above = int(c["target"] is not None)
     gens = res["gens"]
@@ -688,13 +733,24 @@ def model_lines(res: dict) -> tuple[list[str], list[str]]:
             its = s0["env"] // (1 if c["loop"] in ("offline", "bandit") else ne)
             impl.append(f"{its} {s0['env']}")
             if c["loop"] == "off" and nstep < 2:
-                ops.append(f"loop learncalls {s0['ls']} {s0['bs']} 0")
+                ops.append(f"loop learncalls {s0['ls']} {s0['bs']} {mem0[0]}")
                 impl.append(str(s0["learns"]))
     return ops, impl
 
 
 def oracle(res: dict) -> list[str]:
-    """the property itself, on the implementation's own outputs"""
+    """the property itself, on the implementation's own outputs (every call of the training function)"""
+    if "segs" not in res:
+        return oracle_seg(res)
+    out = []
+    many = len(res["segs"]) > 1
+    for sg in res["segs"]:
+        out += [(f"call {sg['call'] + 1} (max_steps={sg['cfg']['max_steps']}): " if many else "") + p
+                for p in oracle_seg(sg)]
+    return out
+
+
+def oracle_seg(res: dict) -> list[str]:
     c = res["cfg"]
     if res["status"] == "timeout":
         return [f"training does not terminate: {res['exc']}"]
@@ -705,6 +761,10 @@ def oracle(res: dict) -> list[str]:
     out = []
     f, gens, n = res["final"], res["gens"], c["pop"]
     G = len(gens)
+    init = res.get("initial") or []
+    f0 = init[0]["fit"] if init else 0          # fitness entries the agents brought along
+    if init and not gens and [a["steps"] for a in f] != [a["steps"] for a in init]:
+        out.append(f"no generation was run but the step lists changed: {[a['steps'] for a in init]} -> {[a['steps'] for a in f]}")
     if len(f) != n:
         out.append(f"population size {len(f)} returned for a population of {n}")
     idx = [a["index"] for a in f]
@@ -728,21 +788,24 @@ def oracle(res: dict) -> list[str]:
         if len(starts) == n and met(starts):
             out.append(f"generation {gi + 1} was run although the budget was already met: steps {starts}, max_steps {c['max_steps']}")
             break
+    if init and not gens and not met([a["steps"][-1] for a in init]):
+        out.append(f"no generation was run although the budget was not met: steps {[a['steps'][-1] for a in init]}, "
+                   f"max_steps {c['max_steps']}")
     early = bool(c["target"] is not None and f and len(f[0]["steps"]) >= 100 and not met([a["steps"][-1] for a in f]))
     res["stopped_early"] = early
     if not early and not met([a["steps"][-1] for a in f]):
         out.append(f"returned before the budget was met: steps {[a['steps'][-1] for a in f]}, max_steps {c['max_steps']}")
     # one fitness per agent and generation
     for a in f:
-        if a["fit"] != G:
-            out.append(f"agent {a['index']} has {a['fit']} fitness entries after {G} generations")
+        if a["fit"] != f0 + G:
+            out.append(f"agent {a['index']} has {a['fit'] - f0} new fitness entries after {G} generations")
             break
     if res["fits_len"] != G:
         out.append(f"returned fitness list has {res['fits_len']} entries after {G} generations")
     elif any(r != n for r in res["fits_rows"]):
         out.append(f"returned fitness rows have lengths {res['fits_rows']} for a population of {n}")
     for gi, g in enumerate(gens):
-        if any(s["fit"] is not None and s["fit"] != gi + 1 for s in g["slots"]):
+        if any(s["fit"] is not None and s["fit"] != f0 + gi + 1 for s in g["slots"]):
             out.append(f"generation {gi + 1}: fitness list lengths {[s['fit'] for s in g['slots']]}")
             break
         s = g["sel"]
@@ -835,6 +898,27 @@ def gen_cases(rng, tier: str) -> list[dict]:
     # --- early stopping: len(steps) reaches 100 long before the budget
     add(loop="off", algo="DQN", num_envs=2, evo_steps=2, max_steps=1000, eval_steps=1, target=-1.0, learn_step=2,
         batch_size=4, timeout=150)
+    # --- populations that already carry steps: every training function is called again on the population it
+    #     returned (larger budget, then an already exhausted one -> 0 generations), and on agents whose `steps`
+    #     are non-zero on entry (as after loading a checkpoint), equal or unequal across the population
+    resumed = {
+        "off": dict(algo=rng.choice(["DQN", "DDPG", "TD3", "RainbowDQN"]), num_envs=2, evo_steps=10, learn_step=rng.choice([1, 2, 4])),
+        "on": dict(algo="PPO", num_envs=2, evo_steps=10, learn_step=4),
+        "offline": dict(algo="CQN", evo_steps=5),
+        "bandit": dict(algo=rng.choice(["NeuralUCB", "NeuralTS"]), episode_steps=6, evo_steps=12, eval_steps=3),
+        "maoff": dict(algo="MADDPG", kind="box", num_envs=rng.choice([None, 2]), evo_steps=10, learn_step=2),
+        "maon": dict(algo="IPPO", kind="box", num_envs=rng.choice([None, 2]), evo_steps=10, learn_step=4),
+    }
+    per_gen = {"off": 10, "on": 12, "offline": 5, "bandit": 6, "maoff": 10, "maon": 24}
+    for lp, kw in resumed.items():
+        d = per_gen[lp]
+        b1, b2 = 2 * d, 2 * d + rng.choice([2, 3]) * d
+        add(loop=lp, budgets=[b1, b2, rng.choice([b2, b2 - d, b1])], tm=rng.random() < 0.4, mut="none",
+            ckpt=rng.choice([None, d + 1]), **kw)
+        s0 = rng.choice([d, 3 * d + 1])
+        spread = rng.choice([0, d, 2 * d])
+        add(loop=lp, start_steps=s0, start_spread=spread, start_hist=rng.random() < 0.5,
+            max_steps=rng.choice([s0 + 2 * d, s0 + spread, s0 + spread + 2 * d]), tm=rng.random() < 0.4, mut="none", **kw)
     extra = 6 if tier == "quick" else 200
     for _ in range(extra):
         loop = rng.choice(["off", "off", "off", "on", "on", "offline", "bandit", "maoff", "maon"])
@@ -868,6 +952,12 @@ def gen_cases(rng, tier: str) -> list[dict]:
         else:
             kw.update(episode_steps=rng.choice([4, 6, 10]), evo_steps=rng.choice([8, 10, 20]), max_steps=rng.choice([20, 30, 40]),
                       learn_step=rng.choice([1, 2, 3]), eval_steps=3)
+        r = rng.random()
+        if r < 0.2:
+            m = kw["max_steps"]
+            kw["budgets"] = [m, m + rng.choice([10, 25, 40]), rng.choice([m, m + 10])]
+        elif r < 0.4:
+            kw.update(start_steps=rng.choice([5, 17, 30]), start_spread=rng.choice([0, 0, 8, 25]), start_hist=rng.random() < 0.5)
         if loop == "maoff" and kw.get("family") in ("image", "dict", "tuple"):
             kw.update(max_steps=40, evo_steps=min(kw["evo_steps"], 15))      # multi-input critics are slow
         add(**kw)
@@ -949,6 +1039,14 @@ def tags_of(res: dict) -> list[str]:
             t.append("real-mutation-drawn")
     if any(len({s["after"] for s in g["slots"]}) > 1 for g in res.get("gens", [])):
         t.append("step-counters-diverged")
+    if c.get("budgets"):
+        t.append("called-again-on-returned-population")
+        if any(not sg["gens"] for sg in res.get("segs", [])[1:]):
+            t.append("call-with-exhausted-budget-0-generations")
+    if c.get("start_steps"):
+        t.append("nonzero-steps-on-entry")
+        if c.get("start_spread"):
+            t.append("unequal-steps-on-entry")
     if c["ckpt"]:
         t.append("checkpoints")
     if c["target"] is not None:
